@@ -472,5 +472,10 @@ def unit_sac_gating(S):
         S.fact(f"{tag}/critics-update-every-iteration", any(n.startswith("Q_OPT") for n in names_q), function=fn, what="the critics are updated on every iteration (not gated)")
 
 
-UNITS = [("num_iterations", unit_num_iterations), ("learn", unit_learn), ("next", unit_next), ("iteration-on-policy", unit_iteration_on_policy), ("dqn", unit_dqn),
+def _ctor_unit():
+    from contracts import _ctor
+    return _ctor.unit_constructor([(SAC, {}, ("tau",))])
+
+
+UNITS = [("constructor", _ctor_unit()), ("num_iterations", unit_num_iterations), ("learn", unit_learn), ("next", unit_next), ("iteration-on-policy", unit_iteration_on_policy), ("dqn", unit_dqn),
          ("sac-targets", unit_sac_targets), ("sac-gating", unit_sac_gating)]
